@@ -587,8 +587,10 @@ func checkC01(c *Ctx) {
 	res.Rule = "random config struct types (reflect.StructOf: depth <= 3, <= 5 fields per struct; scalars, arrays, strings, durations, named types, text-unmarshalers, slices, maps, " +
 		"user pointers incl. **T, nested and pointer structs, chan/func and dials:\"-\" fields in any position) plus three declared types with unexported and embedded fields; random defaults; 0-5 layers " +
 		"built on the real Pointerify output with random set/unset patterns, passed as struct or pointer; real compose (VerifCompose) vs Lean model, real Pointerify vs model ptrify, and a leaf-wise oracle. " +
+		"plus (garbage collector switched off) the same defaults object handed to Config twice with an edit in between, and a watching source that sets map / slice / pointer leaves and then stops setting them (oracle only). " +
 		"non-trivial: >= 2 layers and >= 1 skipped field or nested struct; distinct = by canonical case text"
 	n := c.scale(2500, 80000)
+	c01Reuse(c, c.scale(60, 1500))
 	for i := 0; i < n; i++ {
 		tt := &typeTable{ids: map[reflect.Type]int{}}
 		var T reflect.Type
